@@ -207,6 +207,97 @@ def stream(ctx: Ctx, texts, name="tokenizer-model", drv=None, kinds=None, collec
     return bad
 
 
+def _has_raw(nodes):
+    return any(nd[0] == "e" and (nd[1] in ("script", "style") or _has_raw(nd[3])) for nd in nodes)
+
+
+def _attr_values(nodes):
+    for nd in nodes:
+        if nd[0] == "e":
+            yield from ((nd[1], k, v) for k, v in nd[2])
+            yield from _attr_values(nd[3])
+            if not nd[2]:
+                yield (nd[1], None, None)
+
+
+def written_stream(ctx: Ctx, drv=None, n=None):
+    """`parse_of_written_document` (Props/C04.lean) tied to the real code: for documents of C04's tree model (plus doctypes and
+    `<![if …]>` declarations) written by the Python writer in `plain` mode with logged choices,
+      (i)   Lean `writeText doc choices` = the Python writer's text, character for character, and `Writable` holds;
+      (ii)  `derivedPos` of every element = line/column of the offset the Python writer recorded;
+      (iii) recorder(text) = Lean tokenizer(text) (stream `stream`), and = Lean `emit doc choices` up to data chunking;
+      (iv)  the hypotheses on the parameters: str.lower leaves the names alone, html.unescape inverts `escAttr` on the values."""
+    drv = drv or Driver()
+    lines, meta = [], []
+    # `ParamsOK` (the theorem's hypotheses on its two parameters) against the real functions, beyond the values that occur below:
+    # html.unescape inverts escAttr on strings built from everything that looks like a reference; str.lower leaves names of the
+    # writer's class [a-z][-.:_a-z0-9]* alone
+    atoms = ["&", "amp", ";", "&amp;", "&#38;", "&lt", "\"", "&quot;", "#", "x", "&#x26;", "&notin;", "&am", "p;", "quot", " ", "é", "&#", "&#x", "1", "<", ">", "'"]
+    for i in range(ctx.n(3000, 30000)):
+        r = ctx.rng("paramsok", i)
+        v = "".join(r.choice(atoms) for _ in range(r.randint(1, 6)))
+        nm = r.choice("abcxyz") + "".join(r.choice("abz019-.:_") for _ in range(r.randint(0, 5)))
+        if html.unescape(c04.esc_attr_plain(v)) != v or nm.lower() != nm:
+            ctx.violation("ParamsOK fails for the real html.unescape / str.lower", case={"value": v, "name": nm}, stream="written-text",
+                          no_failing_input=True)
+    ctx.count("written-text:ParamsOK-samples", ctx.n(3000, 30000))
+    for i in range(n if n is not None else ctx.n(1500, 20000)):
+        r = ctx.rng("written-text", i)
+        x = ctx.rng("written-text-extra", i)
+        nodes = c04.gen_tree(r)
+        if x.random() < 0.3:
+            nodes = [("dt", x.choice(["html", "HTML PUBLIC \"-//W3C//DTD HTML 4.01//EN\"", "x  y", "", " ", "html\n"]))] + nodes
+        if x.random() < 0.15:
+            nodes.insert(x.randint(0, len(nodes)), ("ud", x.choice(["if x", "endif", "if gte mso 9", "else", "if !IE", "IF a]b", "EndIf"])))
+        if x.random() < 0.5:
+            nodes = [("t", x.choice(["\n", "\n\n", "a\nb", "\r\n", " "]))] + nodes
+        log = c04.ChoiceLog(ctx.rng("written-text-choices", i))
+        offsets = []
+        text = c04.write(r, nodes, offsets, [0], log=log, plain=True)
+        doc = c04.doc_tokens(nodes, iter(offsets), text)
+        void = "void=" + ".".join(c04.VOID)
+        raw = _has_raw(nodes)
+        ctx.count("written-text:" + ("script-or-style(not-Writable)" if raw else "writable-by-construction"))
+        lines.append(f"tk write {void} {doc} {';'.join(log.entries) or '-'}")
+        lines.append(f"c04 emit {c04.cfg_tokens({'void': c04.VOID})} {doc} {';'.join(log.entries) or '-'}")
+        meta.append((text, nodes, offsets, raw))
+        for name, k, v in _attr_values(nodes):
+            ok = name.lower() == name and (k is None or k.lower() == k) and (v is None or html.unescape(c04.esc_attr_plain(v)) == v)
+            if not ok:
+                ctx.violation("a hypothesis of parse_of_written_document on the parameters fails for the real str.lower / html.unescape",
+                              case={"name": name, "attr": k, "value": v}, stream="written-text", no_failing_input=True)
+    rep = drv.ask(lines)
+    good = []
+    for j, (text, nodes, offsets, raw) in enumerate(meta):
+        w, mtext, mpos = rep[2 * j].split("|")
+        em = rep[2 * j + 1]
+        case = {"text": text}
+        if (w == "1") != (not raw):
+            ctx.violation(f"Writable is {w} for a document {'with' if raw else 'without'} script/style", case=case, stream="written-text",
+                          no_failing_input=True)
+        if raw:
+            continue
+        ctx.case(("written-text", text) if len(offsets) >= 2 else None)
+        if c04.uncps(mtext) != text:
+            ctx.corr_disagreements += 1
+            ctx.violation("Lean writeText differs from the Python writer's plain text", case=case, observed=text, model=c04.uncps(mtext),
+                          stream="written-text", no_failing_input=True)
+            continue
+        want = ",".join("%d.%d" % linecol(text, o) for o in offsets) or "-"
+        if mpos != want:
+            ctx.violation("derivedPos differs from the line/column of the writer's recorded offsets", case=case, expected=want, observed=mpos,
+                          stream="written-text", no_failing_input=True)
+        evs = c04.record(text)
+        a = c04.merge_data(evs or [])
+        b = c04.merge_data([] if em == "-" else em.split(";"))
+        if evs is None or a != b:
+            ctx.corr_disagreements += 1
+            ctx.violation("the tokenizer's callbacks on the written text are not `emit` of the document (up to data chunking)", case=case,
+                          observed=";".join(a), model=";".join(b), stream="written-text", no_failing_input=True)
+        good.append(text)
+    stream(ctx, good, name="written-text:tokenizer", drv=drv)
+
+
 def mutate(r, text):
     s = list(text)
     for _ in range(r.randint(1, 3)):
@@ -276,6 +367,7 @@ def run(ctx: Ctx):
     for k, t in kt:
         ctx.case((k, t) if t.count("<") + t.count("&") > 1 else None)
     stream(ctx, texts, name="tk", drv=drv, kinds=[k for k, _ in kt])
+    written_stream(ctx, drv)
 
 
 def replay(path):
